@@ -297,6 +297,22 @@ def check_C20(A, R, tier):
     R.assume("unknown job ids are outside the statement (\"on every known job\")")
 
 
+def rule_failed_predicate_agrees(A, R, rule):
+    """the per-state predicate 'failed' (what the cleanup scan, the history and the reports rely on) holds exactly for the states
+    the failure, upstream-failure and abort handlers put a job into - no state of a successful or skipped job, none missing"""
+    import rules_more
+    C = A.classes()
+    K = rules_more.kinds(A)
+    tos = set()
+    for k in (K["failure"], K["upfail"], K["abort"]):
+        for f, t in sig_writes(A, k).items():
+            tos |= set(t)
+    tos &= set(C["Finished"])
+    R.ob(rule, "the 'failed' predicate on job states holds exactly for the finished states written by the failure / upstream-failure / abort handlers",
+         set(C["FailedLike"]) == tos,
+         detail="predicate only: %s; handlers only: %s" % (A.snames(set(C["FailedLike"]) - tos), A.snames(tos - set(C["FailedLike"]))))
+
+
 # the python-facing name of each evaluator entry point: confirmed by reading src/lib.rs (#[pymethods] impl), one line each
 WRAPPERS = {
     "add_node": "add_node",                                   # declares a job
@@ -518,6 +534,7 @@ def check_C17(A, R, tier):
             if not (v2 is not None and v2[0] == "fin" and set(v2[2]) == {(1,)}):
                 bad.append(A.sname(fs_))
         R.ob("R17.5", "is_finished | %s | all jobs finished => true" % sn, not bad, detail="not decided as true with every job in %s" % bad)
+    rule_failed_predicate_agrees(A, R, "R17.5")
     # R17.8: python sees the reports under other names: each of those wrappers returns what the report it stands for returns
     rule_wrapper_fidelity(A, R, "R17.8", exclude=("event_", "add_"))
     # ... and the converse: 'finished' only when every job is finished (the scan covers all jobs)
@@ -757,3 +774,93 @@ def pairing(A, R, rule, cls, target, what, exclude=None, field=None):
     R.floor(rule, "writes entering the %s class" % what, n_enter)
     R.floor(rule, "writes leaving the %s class" % what, n_leave)
     R.floor(rule, "operations on the %s set" % what, n_ops, 2)
+
+
+def rule_setup_faithful(A, R, rule, parts=("add_node", "depends_on", "history")):
+    """the graph and the history the evaluation works on are what the driver declared:
+      add_node    enters the job under exactly its id into the id map (one insertion, keyed by the id parameter, valued by the
+                  job's index) and appends exactly one job;
+      depends_on  adds the dependency on every regular path (no dependency is dropped as 'implied' or 'redundant');
+      history     the constructor stores the history it was given unchanged, and nothing but the constructor ever changes that map
+                  (new_history works on a copy)."""
+    import rules_more
+    if "add_node" in parts:
+        b = A.evaluator_fn("add_node")
+        r = A.joined_run(b)
+        ins = [v for v in r.by_kind("map_op") if v["op"] == "insert" and v["target"] == ("self", A.L.idmap_field)]
+        okk = len(ins) == 1 and ins[0]["key"][0] == "str" and all(p_[0] == "param" for p_ in ins[0]["key"][1]) \
+            and ins[0]["value"] is not None and ins[0]["value"][0] == "int" and len(ins[0]["value"]) > 2 and ins[0]["value"][2] == "jobs_len"
+        R.ob(rule, "add_node | the job is entered into the id map once, under its own id, with its index", okk,
+             detail="%d insertion(s) into the id map%s" % (len(ins), "" if len(ins) != 1 else ": key %s value %s" % (str(ins[0]["key"])[:80], str(ins[0]["value"])[:40])),
+             site=A.site(ins[0]) if ins else b.span["s"])
+        pj = r.by_kind("push_job")
+        R.ob(rule, "add_node | exactly one job is appended", len(pj) == 1, detail="%d appended" % len(pj), site=b.span["s"])
+    if "depends_on" in parts:
+        b = A.evaluator_fn("depends_on")
+        r = A.joined_run(b)
+        ae = [v for v in r.by_kind("add_edge") if v["fn"] == b.name and not v.get("stack")]
+        errs = rules_more.error_exit_blocks(A, b) | rules_more.residual_blocks(b)
+        blocks = set(v["bb"] for v in ae)
+        must = bool(blocks) and not (set(rules_more.returns_of(b)) & b.reachable(0, blocks | errs))
+        if not ae:
+            # the insertion may sit in a helper: the call that leads to it
+            ae2 = [v for v in r.by_kind("add_edge")]
+            blocks = set(v["stack"][0][1] for v in ae2 if v.get("stack") and v["stack"][0][0] == b.name)
+            must = bool(blocks) and not (set(rules_more.returns_of(b)) & b.reachable(0, blocks | errs))
+        R.ob(rule, "depends_on | every declared dependency is added to the graph (on every regular path)", must,
+             detail="a regular path returns without adding the edge: the dependency is silently dropped (its downstream is then no "
+                    "direct downstream for the cleanup scan, the failure propagation, the history)", site=b.span["s"])
+    if "history" in parts:
+        ctors = [x for x in A.facts.bodies.values() if x.kind in ("Fn", "AssocFn") and x.locals and x.locals[0]["s"].startswith(A.L.evaluator.split("<")[0])
+                 and x.arg_count >= 1 and any("HashMap<std::string::String, std::string::String>" in x.locals[i]["s"] for i in range(1, x.arg_count + 1))]
+        R.floor(rule, "constructors that take the history", len(ctors), 1)
+        for cb in ctors:
+            hp = [i for i in range(1, cb.arg_count + 1) if "HashMap<std::string::String, std::string::String>" in cb.locals[i]["s"]][0]
+            # the aggregate that builds the evaluator takes the parameter itself (moved), and nothing is called on the parameter before
+            moved = False
+            touched = []
+            alias = {hp}
+            changed = True
+            while changed:
+                changed = False
+                for blk in cb.blocks:
+                    for st in blk["stmts"]:
+                        if st["k"] == "assign" and st["r"]["k"] == "use" and not st["p"]["p"]:
+                            pl = st["r"]["o"].get("move") or st["r"]["o"].get("copy")
+                            if pl is not None and not pl["p"] and pl["l"] in alias and st["p"]["l"] not in alias:
+                                alias.add(st["p"]["l"])
+                                changed = True
+            for blk in cb.blocks:
+                if blk["cleanup"]:
+                    continue
+                for st in blk["stmts"]:
+                    if st["k"] == "assign" and st["r"]["k"] == "agg":
+                        for o in st["r"]["fields"]:
+                            pl = o.get("move") or o.get("copy")
+                            if pl is not None and pl["l"] in alias and not pl["p"]:
+                                moved = True
+                    elif st["k"] == "assign" and st["r"]["k"] in ("ref", "rawptr") and st["r"]["p"]["l"] in alias:
+                        touched.append(blk["i"])
+                t = blk["term"]["t"]
+                if t["k"] == "call":
+                    for o in t["args"]:
+                        pl = o.get("move") or o.get("copy")
+                        if pl is not None and pl["l"] in alias:
+                            touched.append(blk["i"])
+            R.ob(rule, "%s | the history that was passed in is stored as it is" % short(cb.name), moved and not touched,
+                 detail="the constructor works on the history before storing it (blocks %s): records can be lost or changed before the "
+                        "evaluation has looked at them" % sorted(set(touched))[:4] if touched else "the parameter is not what is stored", site=cb.span["s"])
+        # no other code writes the stored history
+        from rules_compare import all_runs
+        A.startup_runs()
+        A.handler_runs()
+        bad = []
+        for (entry, label), run in all_runs(A):
+            for v in run.by_kind("map_op"):
+                if v["target"] == ("self", A.L.history_field) and v["op"] in ("insert", "remove"):
+                    bad.append(v)
+            for v in run.by_kind("store_self"):
+                if v["proj"][:1] == (("f", A.L.history_field),):
+                    bad.append(v)
+        R.ob(rule, "the stored history is never written after construction", not bad,
+             detail="%s" % (short(bad[0]["fn"]) if bad else ""), site=A.site(bad[0]) if bad else "")
